@@ -2072,3 +2072,207 @@ def e_family(g, which):
 split_entry("family", e_family, ["tt", "tr", "tucker", "cp"], seeded=True, groups=("c16", "c15"))
 for _k in ("family:tt", "family:tr", "family:tucker", "family:cp"):
     ENTRIES[_k]["weight"] = 2
+
+
+# ---- order-1 / order-2 data: the degenerate end of "any order", where products have nothing left to contract
+# and helper functions tend to hand back the very object they were given (round 12)
+_LOWORDER = [
+    "mode_dot", "multi_mode_dot", "multi_mode_dot_skip", "unfold_fold", "inner_outer", "kron_kr", "parafac", "nn_parafac",
+    "nn_parafac_hals", "tucker", "nn_tucker", "tensor_train", "tensor_ring", "cp_to_tensor", "tucker_to_tensor", "tt_to_tensor",
+    "tr_to_tensor", "cp_normalize", "robust_pca", "randomised_parafac", "norms", "constrained_parafac",
+]  # fmt: skip
+
+
+def e_loworder(g, which):
+    import tensorly as tl
+    import tensorly.decomposition as D
+    import tensorly.tenalg as T
+    from tensorly import base as B
+
+    g.notes["which"] = which
+    order = g.choice([1, 2])
+    n = g.choice([5, 3, 1])
+    shape = (n,) if order == 1 else (n, g.choice([4, 2]))
+    rs = g.rs()
+    nonneg = which.startswith("nn_")
+    a = g.arr(shape, rs=rs, nonneg=nonneg)
+    if which == "mode_dot":
+        m = g.arr((2, shape[0]), rs=rs) if g.flag(0.6) else g.arr((shape[0],), rs=rs)
+        return dict(fn=T.mode_dot, kwargs=dict(tensor=a, matrix_or_vector=m, mode=0))
+    if which in ("multi_mode_dot", "multi_mode_dot_skip"):
+        ms = [g.arr((2, s), rs=rs) if g.flag(0.6) else g.arr((s,), rs=rs) for s in shape]
+        kw = dict(tensor=a, matrix_or_vec_list=ms)
+        if which.endswith("skip"):
+            kw["skip"] = g.int(0, order - 1)
+        g.opt(kw, "transpose", [True], 0.2)
+        if kw.get("transpose"):
+            kw["matrix_or_vec_list"] = [m.T.copy() if m.ndim == 2 else m for m in ms]
+        return dict(fn=T.multi_mode_dot, kwargs=kw)
+    if which == "unfold_fold":
+        f = g.choice(["unfold", "fold", "tensor_to_vec", "vec_to_tensor", "partial_unfold", "matricize"])
+        g.notes["f"] = f
+        if f == "unfold":
+            return dict(fn=B.unfold, kwargs=dict(tensor=a, mode=g.int(0, order - 1)))
+        if f == "fold":
+            return dict(fn=B.fold, kwargs=dict(unfolded_tensor=a, mode=0, shape=shape))
+        if f == "tensor_to_vec":
+            return dict(fn=B.tensor_to_vec, kwargs=dict(tensor=a))
+        if f == "vec_to_tensor":
+            return dict(fn=B.vec_to_tensor, kwargs=dict(vec=g.arr((int(np.prod(shape)),), rs=rs), shape=shape))
+        if f == "partial_unfold":
+            return dict(fn=B.partial_unfold, kwargs=dict(tensor=a, mode=0, skip_begin=g.choice([0, 1]), ravel_tensors=g.flag()))
+        return dict(fn=B.matricize, kwargs=dict(tensor=a, row_modes=[0], column_modes=list(range(1, order))))
+    if which == "inner_outer":
+        f = g.choice(["inner", "outer", "batched_outer", "tensordot"])
+        g.notes["f"] = f
+        b = g.arr(shape, rs=rs)
+        if f == "inner":
+            return dict(fn=T.inner, kwargs=dict(tensor1=a, tensor2=b, n_modes=g.choice([None, 1, order])))
+        if f == "outer":
+            return dict(fn=T.outer, kwargs=dict(tensors=[a] if g.flag(0.4) else [a, b]))
+        if f == "batched_outer":
+            return dict(fn=T.batched_outer, kwargs=dict(tensors=[a] if g.flag(0.4) else [a, b]))
+        return dict(fn=T.tensordot, kwargs=dict(tensor1=a, tensor2=b, modes=g.choice([0, 1, [0], ([0], [0])])))
+    if which == "kron_kr":
+        ms = [g.arr((s, 2), rs=rs) for s in shape]
+        if g.flag():
+            return dict(fn=T.khatri_rao, kwargs=dict(matrices=ms))
+        return dict(fn=T.kronecker, kwargs=dict(matrices=ms))
+    rank = g.choice([2, 1])
+    if which in ("parafac", "nn_parafac", "nn_parafac_hals", "randomised_parafac", "constrained_parafac"):
+        kw = dict(rank=rank, n_iter_max=2, init=g.choice(["random", "svd"]), random_state=0)
+        if which == "parafac":
+            if g.flag(0.3):
+                kw["mask"] = g.arr(shape, rs=rs, nonneg=True) > 0.3
+            g.opt(kw, "normalize_factors", [True], 0.3)
+            g.opt(kw, "orthogonalise", [True], 0.2)
+            g.opt(kw, "linesearch", [True], 0.2)
+            return dict(fn=D.parafac, kwargs=dict(tensor=a, **kw))
+        if which == "nn_parafac":
+            return dict(fn=D.non_negative_parafac, kwargs=dict(tensor=a, **kw))
+        if which == "nn_parafac_hals":
+            return dict(fn=D.non_negative_parafac_hals, kwargs=dict(tensor=a, **kw))
+        if which == "constrained_parafac":
+            kw["n_iter_max_inner"] = 2
+            kw[g.choice(["non_negative", "l1_reg", "unimodality", "normalize", "l2_square_reg"])] = g.choice([True, {0: True}]) if True else None
+            if "l1_reg" in kw or "l2_square_reg" in kw:
+                k = "l1_reg" if "l1_reg" in kw else "l2_square_reg"
+                kw[k] = g.choice([0.1, {0: 0.1}])
+            return dict(fn=D.constrained_parafac, kwargs=dict(tensor=a, **kw))
+        kw.pop("n_iter_max")
+        return dict(fn=D.randomised_parafac, kwargs=dict(tensor=a, n_samples=g.choice([3, 1]), max_stagnation=2, n_iter_max=3, **kw))
+    if which in ("tucker", "nn_tucker"):
+        kw = dict(rank=[rank] * order, n_iter_max=2, init=g.choice(["random", "svd"]), random_state=0)
+        if which == "tucker":
+            if g.flag(0.3):
+                kw["mask"] = g.arr(shape, rs=rs, nonneg=True) > 0.3
+            if g.flag(0.3):
+                kw["fixed_factors"] = None
+            return dict(fn=D.tucker, kwargs=dict(tensor=a, **kw))
+        if g.flag():
+            return dict(fn=D.non_negative_tucker, kwargs=dict(tensor=a, **kw))
+        return dict(fn=D.non_negative_tucker_hals, kwargs=dict(tensor=a, **kw))
+    if which == "tensor_train":
+        return dict(fn=D.tensor_train, kwargs=dict(input_tensor=a, rank=g.choice([[1] + [2] * (order - 1) + [1], 2, "same"])))
+    if which == "tensor_ring":
+        return dict(fn=D.tensor_ring, kwargs=dict(input_tensor=a, rank=g.choice([[2] + [1] * (order - 1) + [2], [1] * (order + 1), 2])))
+    if which == "cp_to_tensor":
+        facs = [g.arr((s, rank), rs=rs) for s in shape]
+        w = g.choice([None, "ones", "rand"])
+        wv = None if w is None else (np.ones(rank) if w == "ones" else g.arr((rank,), rs=rs, kinds=("c",)))
+        f = g.choice(["cp_to_tensor", "cp_to_vec", "cp_to_unfolded", "cp_norm", "cp_mode_dot"])
+        g.notes["f"] = f
+        cp = (wv, facs if g.flag() else tuple(facs))
+        if f == "cp_to_tensor":
+            kw = dict(cp_tensor=cp)
+            if g.flag(0.3):
+                kw["mask"] = g.arr(shape, rs=rs, nonneg=True) > 0.3
+            return dict(fn=tl.cp_to_tensor, kwargs=kw)
+        if f == "cp_to_vec":
+            return dict(fn=tl.cp_to_vec, kwargs=dict(cp_tensor=cp))
+        if f == "cp_to_unfolded":
+            return dict(fn=tl.cp_to_unfolded, kwargs=dict(cp_tensor=cp, mode=0))
+        if f == "cp_norm":
+            from tensorly.cp_tensor import cp_norm
+
+            return dict(fn=cp_norm, kwargs=dict(cp_tensor=cp))
+        from tensorly.cp_tensor import cp_mode_dot
+
+        m = g.arr((2, shape[0]), rs=rs) if g.flag(0.6) else g.arr((shape[0],), rs=rs)
+        return dict(fn=cp_mode_dot, kwargs=dict(cp_tensor=cp, matrix_or_vector=m, mode=0, keep_dim=g.flag(0.3), copy=True))
+    if which == "tucker_to_tensor":
+        core = g.arr((rank,) * order, rs=rs)
+        facs = [g.arr((s, rank), rs=rs) for s in shape]
+        tk = (core, facs if g.flag() else tuple(facs))
+        f = g.choice(["tucker_to_tensor", "tucker_to_vec", "tucker_to_unfolded", "tucker_mode_dot", "tucker_normalize"])
+        g.notes["f"] = f
+        from tensorly import tucker_tensor as TT
+
+        if f == "tucker_to_tensor":
+            kw = dict(tucker_tensor=tk)
+            if g.flag(0.4):
+                kw["skip_factor"] = 0
+            g.opt(kw, "transpose_factors", [True], 0.2)
+            return dict(fn=TT.tucker_to_tensor, kwargs=kw)
+        if f == "tucker_to_vec":
+            return dict(fn=TT.tucker_to_vec, kwargs=dict(tucker_tensor=tk))
+        if f == "tucker_to_unfolded":
+            return dict(fn=TT.tucker_to_unfolded, kwargs=dict(tucker_tensor=tk, mode=0))
+        if f == "tucker_normalize":
+            return dict(fn=TT.tucker_normalize, kwargs=dict(tucker_tensor=tk))
+        m = g.arr((2, shape[0]), rs=rs) if g.flag(0.5) else g.arr((shape[0],), rs=rs)
+        return dict(fn=TT.tucker_mode_dot, kwargs=dict(tucker_tensor=tk, matrix_or_vector=m, mode=0, keep_dim=g.flag(0.4), copy=True))
+    if which == "tt_to_tensor":
+        r = [1] + [rank] * (order - 1) + [1]
+        cores = [g.arr((r[i], shape[i], r[i + 1]), rs=rs, kinds=("c", "f")) for i in range(order)]
+        f = g.choice(["tt_to_tensor", "tt_to_unfolded", "tt_to_vec", "pad_tt_rank"])
+        g.notes["f"] = f
+        from tensorly import tt_tensor as TTm
+
+        fac = cores if g.flag() else tuple(cores)
+        if f == "tt_to_tensor":
+            return dict(fn=TTm.tt_to_tensor, kwargs=dict(factors=fac))
+        if f == "tt_to_unfolded":
+            return dict(fn=TTm.tt_to_unfolded, kwargs=dict(factors=fac, mode=0))
+        if f == "tt_to_vec":
+            return dict(fn=TTm.tt_to_vec, kwargs=dict(factors=fac))
+        return dict(fn=TTm.pad_tt_rank, kwargs=dict(factor_list=fac, n_padding=g.choice([1, 2]), pad_boundaries=g.flag(0.3)))
+    if which == "tr_to_tensor":
+        r = [2] + [rank] * (order - 1) + [2]
+        cores = [g.arr((r[i], shape[i], r[i + 1]), rs=rs, kinds=("c", "f")) for i in range(order)]
+        from tensorly import tr_tensor as TRm
+
+        f = g.choice(["tr_to_tensor", "tr_to_unfolded", "tr_to_vec"])
+        g.notes["f"] = f
+        fac = cores if g.flag() else tuple(cores)
+        if f == "tr_to_tensor":
+            return dict(fn=TRm.tr_to_tensor, kwargs=dict(factors=fac))
+        if f == "tr_to_unfolded":
+            return dict(fn=TRm.tr_to_unfolded, kwargs=dict(factors=fac, mode=0))
+        return dict(fn=TRm.tr_to_vec, kwargs=dict(factors=fac))
+    if which == "cp_normalize":
+        facs = [g.arr((s, rank), rs=rs) for s in shape]
+        return dict(fn=tl.cp_normalize, kwargs=dict(cp_tensor=(None, facs)))
+    if which == "robust_pca":
+        kw = dict(X=a, n_iter_max=2)
+        if g.flag(0.3):
+            kw["mask"] = g.arr(shape, rs=rs, nonneg=True) > 0.3
+        return dict(fn=D.robust_pca, kwargs=kw)
+    # norms and reductions through the backend
+    f = g.choice(["norm1", "norm2", "norminf", "norm_axis", "sum", "clip", "sort", "argmax"])
+    g.notes["f"] = f
+    if f.startswith("norm"):
+        kw = dict(tensor=a, order={"norm1": 1, "norm2": 2, "norminf": "inf", "norm_axis": 2}[f])
+        if f == "norm_axis":
+            kw["axis"] = 0
+        return dict(fn=tl.norm, kwargs=kw)
+    if f == "sum":
+        return dict(fn=tl.sum, kwargs=dict(tensor=a, axis=0))
+    if f == "clip":
+        return dict(fn=tl.clip, kwargs=dict(tensor=a, a_min=0.1, a_max=0.5))
+    if f == "sort":
+        return dict(fn=tl.sort, kwargs=dict(tensor=a, axis=0))
+    return dict(fn=tl.argmax, kwargs=dict(tensor=a, axis=0))
+
+
+split_entry("loworder", e_loworder, _LOWORDER, deterministic=True)
